@@ -114,6 +114,18 @@ CLAIMS["C18"] = dict(
     note="Trusted: TLC, TimeSync.tla, the harness proxy and tokio's paused clock. Delays from a boundary set, not all of 0..65535+; the outstation's processing time is applied by the proxy to the reply that reports it; "
          "unrelated traffic interleaved with the procedure is not generated; 3 ms of slack for the harness's settle steps.")
 
+CLAIMS["C02"] = dict(
+    text="System.tla composes master, channel and outstation at the level of the data that flows: database versions, the event buffer with written / unwritten marks and overflow, fragments and confirms in flight, "
+         "unsolicited reporting, cuts that lose what is in flight, reconnects with the integrity poll, late timeouts. TLC checks the safety invariants (nothing fabricated or cross-wired, no event released before "
+         "it was received, static values never go backwards) and, under weak fairness of the system's actions, the two liveness properties (after the environment stops every point's current value and every event not "
+         "discarded reach the handler). TLC-generated behaviours of the environment (plus directed cuts while a fragment is in flight) are replayed on the real master and the real outstation connected through a proxy "
+         "with seeded one-way delays, re-chunking and cuts (harness pair mode); Mon_C02 (TLC trace validation) judges the S-trace: every value the ReadHandler received against the update history, convergence and "
+         "event completeness at the end.",
+    ref="§7 C02", technique="TLA+ model checking with liveness (TLC) + trace validation of replayed behaviours (paired master and outstation)",
+    note="Trusted: TLC, System.tla (abstracts the protocol to versions, fragments and confirms; bounded constants: 2 points, <= 3 updates, <= 2 cuts, capacity 1-2), the harness proxy. The real TCP stack and the "
+         "multi-threaded scheduling of the quantifier are replaced by in-memory pipes and a current-thread runtime with a paused clock: logical interleavings are covered, OS-thread schedules and sockets are not. "
+         "Analog input points only; commands are not part of the scenarios.")
+
 def main():
     head = subprocess.run(["git", "-C", "/repo", "log", "--format=%h %s"], capture_output=True, text=True).stdout.splitlines()
     hooks = [l.split()[0] for l in head if "verif hooks" in l]
@@ -135,7 +147,7 @@ def main():
         })
     na = [{"property_id": p, "reason": NA.get(p, "check not built yet (work in progress)")} for p in PROPS if p not in CLAIMS]
     m = {"version": 1,
-         "setup_cmd": "cd /verif/harness && cargo build --offline 2>&1 | tail -2 && cd /verif/spec && for f in Trace_Outstation.tla TM_C03.tla TM_C04.tla TM_C06.tla TM_C07L.tla TM_C08.tla Trace_Link.tla TM_C05.tla TM_C07.tla TM_C11.tla TM_C12.tla TM_C13.tla TM_C14.tla Trace_Master.tla TM_C01.tla TM_C09.tla TM_C10.tla TM_C18.tla TM_C15.tla TM_C16.tla TM_C17.tla TM_C19.tla; do tla-sany $f > /dev/null || exit 1; done",
+         "setup_cmd": "cd /verif/harness && cargo build --offline 2>&1 | tail -2 && cd /verif/spec && for f in Trace_Outstation.tla TM_C03.tla TM_C04.tla TM_C06.tla TM_C07L.tla TM_C08.tla Trace_Link.tla TM_C05.tla TM_C07.tla TM_C11.tla TM_C12.tla TM_C13.tla TM_C14.tla Trace_Master.tla TM_C02.tla TM_C01.tla TM_C09.tla TM_C10.tla TM_C18.tla TM_C15.tla TM_C16.tla TM_C17.tla TM_C19.tla; do tla-sany $f > /dev/null || exit 1; done",
          "hooks": {"guard": "dnp3_verif",
                    "enable": "rustflags --cfg dnp3_verif in /verif/harness/.cargo/config.toml (the harness crate has a path dependency on /repo/dnp3, default-features off)",
                    "baseline_off_cmd": "cd /repo && cargo test --workspace --no-fail-fast --offline",
